@@ -69,6 +69,30 @@ def paired_field_rewrite(program, res):
     res.expect_count("C16-S2", "join-node source rewrites", n, 1)
 
 
+def join_type_image(program):
+    """the join types standardize_join_type can *return*: its allowed set, with the spellings it rewrites replaced by what it rewrites them to
+    (`if join_str == "OUTER": join_str = "FULL"`)"""
+    sj = program.func("expr_rep", "standardize_join_type")
+    allowed = None
+    for st in ast.walk(sj.node):
+        if isinstance(st, ast.Assign) and isinstance(st.value, ast.Set):
+            allowed = {e.value for e in st.value.elts if isinstance(e, ast.Constant)}
+    if not allowed:
+        raise AnalysisError("standardize_join_type: allowed set literal not found")
+    param = sj.params()[0]
+    image = set(allowed)
+    for st in ast.walk(sj.node):
+        if isinstance(st, ast.If) and isinstance(st.test, ast.Compare) and len(st.test.ops) == 1 and isinstance(st.test.ops[0], ast.Eq) \
+                and isinstance(st.test.left, ast.Name) and st.test.left.id == param and isinstance(st.test.comparators[0], ast.Constant):
+            frm = st.test.comparators[0].value
+            tos = [a.value.value for a in st.body if isinstance(a, ast.Assign) and isinstance(a.targets[0], ast.Name) and a.targets[0].id == param
+                   and isinstance(a.value, ast.Constant)]
+            if tos and frm in image:
+                image.discard(frm)
+                image.add(tos[-1])
+    return allowed, image
+
+
 def _cross_needs_empty_on(program) -> bool:
     """NaturalJoinNode refuses a CROSS join that names keys"""
     init = program.cls("view_representations", "NaturalJoinNode").methods["__init__"]
@@ -81,12 +105,7 @@ def _cross_needs_empty_on(program) -> bool:
 def _s1(program, res):
     sj = program.func("expr_rep", "standardize_join_type")
     res.analysed(sj)
-    allowed = None
-    for st in ast.walk(sj.node):
-        if isinstance(st, ast.Assign) and isinstance(st.value, ast.Set):
-            allowed = {e.value for e in st.value.elts if isinstance(e, ast.Constant)}
-    if not allowed:
-        raise AnalysisError("standardize_join_type: allowed set literal not found")
+    _accepted, allowed = join_type_image(program)   # what reaches the executors
     if "upper()" not in unparse(sj.node):
         res.fail_at("C16-S1", sj, "no-normalisation", "standardize_join_type no longer upper-cases the join type")
     # ---- Pandas
